@@ -1,5 +1,7 @@
 //! Engine `wantlist`: raw API histories on one Wantlist + one WantlistState (Corr_wantlist.v).
 use beetswap::verif::wantlist::{VWantlist, VWantlistState};
+use cid::CidGeneric;
+use multihash::Multihash;
 
 use crate::e_incoming::entry_j;
 use crate::gen::*;
@@ -123,6 +125,25 @@ pub fn run(seed: u64, n: usize, tier: &str) {
     } else {
         exhaustive(&cids, 1, 4);
         exhaustive(&cids, 2, 3);
+    }
+    // bursts: more wantlist changes between two transmissions than any bound a single update might assume
+    // (short identity-hash CIDs keep the case small): k inserts, update, update again, a few removals, update, full
+    {
+        let big: Vec<Cid64> = (0..1400u32)
+            .map(|i| CidGeneric::new_v1(0x55, Multihash::<64>::wrap(0, &[(i >> 8) as u8, i as u8]).unwrap()))
+            .collect();
+        let sizes: &[usize] = if tier == "thorough" { &[1023, 1024, 1025, 1400] } else { &[1100] };
+        for &k in sizes {
+            let mut evs: Vec<Ev> = (0..k).map(Ev::Insert).collect();
+            evs.push(Ev::Raw(Op::GenUpdate));
+            evs.push(Ev::Raw(Op::GenUpdate));
+            for _ in 0..5 {
+                evs.push(Ev::Raw(Op::Remove(rng.usize(k))));
+            }
+            evs.push(Ev::Raw(Op::GenUpdate));
+            evs.push(Ev::Raw(Op::GenFull));
+            run_history(&big, rng.chance(1, 2), &evs, vec![format!("burst/{k}")]).print();
+        }
     }
     let alpha = alphabet(4);
     for i in 0..n {
